@@ -30,7 +30,7 @@ func main() {
 		replay(w, a.Replay)
 	} else {
 		corpus(w)
-		na, nc, no := 2000, 1200, 1200
+		na, nc, no := 1500, 1200, 1200
 		np, ncp := 900, 400 // scripts / calls reached through generated call paths
 		if a.Tier == "thorough" {
 			na, nc, no = 40000, 20000, 30000
@@ -60,6 +60,9 @@ func main() {
 		}
 		for i := 0; i < nc/3; i++ {
 			runCopyRet(w, genCopyRet(r.Fork()), "copyret")
+		}
+		for i := 0; i < nc/4; i++ {
+			runInitLua(w, genInitLua(r.Fork()), "initlua")
 		}
 		for i := 0; i < no/20; i++ {
 			in := genGenv(r.Fork())
@@ -128,6 +131,10 @@ func corpus(w *lib.Writer) {
 			{K: "get", I: 2}, {K: "get", I: 3}, {K: "get", I: 6}, {K: "gettop"}, {K: "settop", I: 4}, {K: "get", I: 5}, {K: "settop", I: 1}, {K: "push", V: 5}, {K: "get", I: 3},
 			{K: "call", C: "lua", Via: "cbpp", N: 1, J: 2, P: 2, I: 3}, {K: "get", I: 6}, {K: "get", I: 8}, {K: "call", C: "reenter", Via: "pcall", N: 2, P: 1, I: 1, F: true}, {K: "get", I: 6}, {K: "pop", I: 2}, {K: "get", I: 4}}}, "corpus/stale-above-top")
 	}
+	// initCallFrame of a fixed-arity Lua function: the caller's dead temporaries stay above the frame
+	for _, c := range [][4]int{{3, 1, 1, 2}, {3, 0, 2, 3}, {2, 2, 1, 1}, {3, 1, 2, 12}, {1, 3, 0, 0}} {
+		runInitLua(w, InitLuaIn{Kind: "initlua", Cells: []int{100, 101, 102, 103}, Stale: 7, LB: c[0], NArgs: c[1], NP: c[2], NRegs: c[3], Reg: RegOpt{Size: 128}}, "corpus/initlua")
+	}
 	// C10-2 (open finding): ObjLen of a userdata without __len; and Concat() without operands (fixed b70edf8)
 	runObj(w, ObjIn{Kind: "obj", Op: "objlen", A: Operand{"newud(MT2)"}, B: Operand{"nil"}, K: Operand{"nil"}, V: Operand{"nil"}, MT1: 64, MT2: 1, Same: true}, "corpus/C10-2")
 	runObj(w, ObjIn{Kind: "obj", Op: "concat0", A: Operand{"nil"}, B: Operand{"nil"}, K: Operand{"nil"}, V: Operand{"nil"}, Same: true}, "corpus/concat0")
@@ -185,6 +192,10 @@ func replay(w *lib.Writer, path string) {
 		var in CopyRetIn
 		json.Unmarshal(rp.Input, &in)
 		runCopyRet(w, in, "replay")
+	case "initlua":
+		var in InitLuaIn
+		json.Unmarshal(rp.Input, &in)
+		runInitLua(w, in, "replay")
 	case "c10-1":
 		runC101(w)
 	default:
